@@ -100,6 +100,12 @@ CLAIMED = {
     text='Before and after each real operation (all selections on the small bases incl. second-level refinements, single columns / strips / L-shapes / boundary regions / annuli / random subsets on random rectangular geometries with surfaces below, inside, on and above layers, patches of shipped irregular geometries, synthetic 5..9-gons with 0..4 straight angles at every position and every rotation of the node list, every layer subset x factor) the harness measures total plan area and rock volume with own shoelace code, compares them with the stored areas and with the sum of the geometry\'s own block volumes, places sample points (centroids, random interior points, points just inside every old side and corner) and requires each to lie in exactly one new column that lies inside the old column and inherits its surface, and checks conformity from the polygons alone (no node in the interior of another column\'s edge, shared edge <=> connection). Probes on refine.transition_type and decompose_column record which of the 8 transition types and 6 decomposition cases were actually exercised; a run that misses one is inconclusive.',
     note='Trusted: vf/oracle/polygeo.py, vf/oracle/geoinv.py. Refine is requested only where the selection and the columns around it are 3- or 4-sided (the only shapes it supports); after triangulate_column (a helper that adds no connections) the harness adds the missing connections before judging conformity.',
     design='DESIGN.md §3 C11'),
+
+ 'C07': dict(
+    technique='runtime history monitor: navigation sequences on a live t2listing object, state after every action compared with a freshly opened listing positioned directly at the index a ten-line navigation model predicts',
+    text='For every shipped listing file (and truncated copies cut before a result set by an own scan of the raw text) the state (index, time, step, row names and every number of every table) of a fresh listing set directly to each index is recorded; then sequences over the full action alphabet (first, last, next, prev, index=i incl. negative, time=t exact / either side of each midpoint / before / after, step=s likewise, history) are executed on one live object - all sequences up to length 2 in the quick tier, up to length 4 / 3 / 2 by file size in the thorough tier, plus random sequences of 5-60 actions - and after every action the live state must equal the fresh state of the predicted index, next/prev must return whether they moved and never pass an end.',
+    note='Trusted: the navigation model expected_index() in vf/props/c07.py; fresh snapshots come from the same reader (the property is about path independence, what the tables hold is C05). Times / steps exactly half-way between two result sets are not requested.',
+    design='DESIGN.md §3 C07'),
 }
 
 def main():
